@@ -6,7 +6,11 @@ use crate::RecordValue;
 use crate::Result;
 use roxmltree::Node;
 
-fn extract_limit(bounds: &Node, tag_name: &str) -> Result<Option<RecordValue>> {
+fn extract_limit(
+    bounds: &Node,
+    tag_name: &str,
+    data_type: Option<&RecordDataType>,
+) -> Result<Option<RecordValue>> {
     if let Some(tag) = bounds.children().find(|n| n.is_e57_tag(tag_name)) {
         let type_str = tag
             .attribute("type")
@@ -18,11 +22,36 @@ fn extract_limit(bounds: &Node, tag_name: &str) -> Result<Option<RecordValue>> {
                     .parse::<i64>()
                     .invalid_err("Cannot parse integer limit value")?,
             )),
-            "ScaledInteger" => Some(RecordValue::ScaledInteger(
-                value_str
+            "ScaledInteger" => {
+                let raw = value_str
                     .parse::<i64>()
-                    .invalid_err("Cannot parse scaled integer limit value")?,
-            )),
+                    .invalid_err("Cannot parse scaled integer limit value")?;
+                let attribute = |name: &str| -> Result<Option<f64>> {
+                    tag.attribute(name)
+                        .map(|text| {
+                            text.parse::<f64>().invalid_err(format!(
+                                "Cannot parse {name} of scaled integer limit '{tag_name}'"
+                            ))
+                        })
+                        .transpose()
+                };
+                let scale = attribute("scale")?;
+                let offset = attribute("offset")?;
+                // The units of the limited record, a scaled integer limit in these units is one of its raw values
+                let (record_scale, record_offset) = match data_type {
+                    Some(RecordDataType::ScaledInteger { scale, offset, .. }) => (*scale, *offset),
+                    _ => (1.0, 0.0),
+                };
+                // A scaled integer element without scale or offset has the scale one and the offset zero
+                let scale = scale.unwrap_or(1.0);
+                let offset = offset.unwrap_or(0.0);
+                if scale == record_scale && offset == record_offset {
+                    Some(RecordValue::ScaledInteger(raw))
+                } else {
+                    // A limit in other units stands for a number that is no raw value of the record
+                    Some(RecordValue::Double(raw as f64 * scale + offset))
+                }
+            }
             "Float" => {
                 let single = tag.attribute("precision").unwrap_or("double") == "single";
                 if single {
@@ -56,9 +85,10 @@ pub struct IntensityLimits {
 }
 
 impl IntensityLimits {
-    pub(crate) fn from_node(node: &Node) -> Result<Self> {
-        let intensity_min = extract_limit(node, "intensityMinimum")?;
-        let intensity_max = extract_limit(node, "intensityMaximum")?;
+    /// The data type of the intensity record is needed to read scaled integer limits.
+    pub(crate) fn from_node(node: &Node, data_type: Option<&RecordDataType>) -> Result<Self> {
+        let intensity_min = extract_limit(node, "intensityMinimum", data_type)?;
+        let intensity_max = extract_limit(node, "intensityMaximum", data_type)?;
         Ok(Self {
             intensity_min,
             intensity_max,
@@ -99,13 +129,19 @@ pub struct ColorLimits {
 }
 
 impl ColorLimits {
-    pub(crate) fn from_node(node: &Node) -> Result<Self> {
-        let red_min = extract_limit(node, "colorRedMinimum")?;
-        let red_max = extract_limit(node, "colorRedMaximum")?;
-        let green_min = extract_limit(node, "colorGreenMinimum")?;
-        let green_max = extract_limit(node, "colorGreenMaximum")?;
-        let blue_min = extract_limit(node, "colorBlueMinimum")?;
-        let blue_max = extract_limit(node, "colorBlueMaximum")?;
+    /// The data types of the color records are needed to read scaled integer limits.
+    pub(crate) fn from_node(
+        node: &Node,
+        red: Option<&RecordDataType>,
+        green: Option<&RecordDataType>,
+        blue: Option<&RecordDataType>,
+    ) -> Result<Self> {
+        let red_min = extract_limit(node, "colorRedMinimum", red)?;
+        let red_max = extract_limit(node, "colorRedMaximum", red)?;
+        let green_min = extract_limit(node, "colorGreenMinimum", green)?;
+        let green_max = extract_limit(node, "colorGreenMaximum", green)?;
+        let blue_min = extract_limit(node, "colorBlueMinimum", blue)?;
+        let blue_max = extract_limit(node, "colorBlueMaximum", blue)?;
         Ok(Self {
             red_min,
             red_max,
